@@ -29,6 +29,9 @@ pub enum PosSrc {
     Raw { yz: u32, xz: u32 },
     /// report the current true position again (same raw values as the last report of this parity)
     Same,
+    /// latitude fields of an even / odd pair whose zone-index rounding is an exact tie
+    /// (59 YZ0 - 60 YZ1 = -65536 (2t + 1)); the longitude field is that of the true position
+    Tie { t: u8, k: u16 },
 }
 
 #[derive(Clone, Debug, PartialEq)]
@@ -70,8 +73,8 @@ pub struct Scenario {
 // (the last site has the latitude of the first and another longitude: anything remembered per latitude shows)
 pub const RX: [(f64, f64); 8] = [(52.0, 4.0), (85.0, 10.0), (0.01, 179.9), (-33.9, 151.2), (40.0, -100.0), (0.0, 0.0), (-89.0, -179.95), (52.0, -120.0)];
 pub const RANGES: [f64; 4] = [500.0, 50.0, 20000.0, 0.0];
-// (two addresses that differ in the last octet only, the all-zero and the all-one address)
-const ADDR: [u32; 5] = [0xabc001, 0xabc002, 0x000000, 0xffffff, 0x7c0017];
+// (addresses that differ from the first one in the last, the first or the middle octet only; the all-zero and the all-one address)
+const ADDR: [u32; 6] = [0xabc001, 0xabc002, 0x7cc001, 0xab0001, 0x000000, 0xffffff];
 
 fn bearing_s() -> impl Strategy<Value = u16> {
     0u16..360
@@ -84,14 +87,18 @@ fn possrc_s() -> impl Strategy<Value = PosSrc> {
         2 => (bearing_s(), prop_oneof![Just(990u16), Just(1010), 0u16..1000, 1000u16..2000]).prop_map(|(bearing, permille)| PosSrc::AtRange { bearing, permille }),
         1 => (prop_oneof![4 => 0u32..131072, 1 => Just(0u32), 1 => Just(131071u32)], prop_oneof![4 => 0u32..131072, 1 => Just(0u32), 1 => Just(131071u32)]).prop_map(|(yz, xz)| PosSrc::Raw { yz, xz }),
         2 => Just(PosSrc::Same),
+        1 => (0u8..6, 0u16..4).prop_map(|(t, k)| PosSrc::Tie { t, k }),
     ]
 }
 
 fn alt_s() -> impl Strategy<Value = u16> {
+    // the 100 ft (Gillham) codes for 0 ft and 100 ft: an altitude of exactly 0 is an altitude
+    let zero_ft: Vec<u16> = (0u16..4096).filter(|c| matches!(refdec::ac12_ft(*c as u32), Some(0) | Some(100))).collect();
     prop_oneof![
         6 => (41u16..2047).prop_map(|n| ((n & 0x7f0) << 1) | 0x10 | (n & 0xf)),
         1 => Just(0u16),
         2 => 0u16..4096,
+        1 => proptest::sample::select(if zero_ft.is_empty() { vec![0u16] } else { zero_ft }),
     ]
 }
 
@@ -128,7 +135,7 @@ fn op_s(nac: u8, with_time: bool) -> BoxedStrategy<Op> {
 }
 
 pub fn scenario_s(max_ops: usize, with_time: bool) -> impl Strategy<Value = Scenario> {
-    (1u8..5).prop_flat_map(move |nac| {
+    prop_oneof![4 => 1u8..5, 1 => 5u8..7].prop_flat_map(move |nac| {
         (0u8..RX.len() as u8, 0u8..RANGES.len() as u8, proptest::collection::vec((bearing_s(), 0u16..900), nac as usize), proptest::collection::vec(op_s(nac, with_time), 0..max_ops), 0..nac, prop_oneof![6 => Just(0u8), 2 => 0u8..16, 1 => (0u8..16).prop_map(|x| x | 0x80)])
             .prop_map(|(rx, range, start, ops, isolate, snap)| Scenario { rx, range, start, ops, isolate, snap })
     })
@@ -239,6 +246,19 @@ pub fn build(world: &mut World, op: &Op) -> Option<Built> {
                             (e.0, e.1)
                         }
                         PosSrc::Raw { yz, xz } => (*yz, *xz),
+                        PosSrc::Tie { t, k } => {
+                            let rhs = 65536 * (2 * *t as i64 + 1);
+                            let base = (rhs % 59 + 59) % 59;
+                            let kmax = (131071 - base) / 59;
+                            let yz1 = base + 59 * ((*k as i64 * 531 + 18) % (kmax + 1));
+                            let yz0 = (60 * yz1 - rhs) / 59;
+                            let e = refcpr::encode(world.truth[a].0, world.truth[a].1, parity);
+                            if (60 * yz1 - rhs) % 59 == 0 && (0..131072).contains(&yz0) {
+                                (if parity == 0 { yz0 as u32 } else { yz1 as u32 }, e.1)
+                            } else {
+                                (e.0, e.1)
+                            }
+                        }
                         PosSrc::Same => match world.last_raw[a][parity as usize] {
                             Some(r) => r,
                             None => {
@@ -922,6 +942,7 @@ fn op_json(o: &Op) -> Value {
                         PosSrc::AtRange { bearing, permille } => json!({"at_range": [bearing, permille]}),
                         PosSrc::Raw { yz, xz } => json!({"raw": [yz, xz]}),
                         PosSrc::Same => json!("same"),
+                        PosSrc::Tie { t, k } => json!({"tie": [t, k]}),
                     };
                     json!({"position": {"odd": odd, "tc": tc, "alt": alt, "src": s}})
                 }
@@ -959,6 +980,8 @@ fn op_from(v: &Value) -> Option<Op> {
                 PosSrc::AtRange { bearing: u(&a[0]) as u16, permille: u(&a[1]) as u16 }
             } else if let Some(a) = s.get("raw").and_then(|x| x.as_array()) {
                 PosSrc::Raw { yz: u(&a[0]) as u32, xz: u(&a[1]) as u32 }
+            } else if let Some(a) = s.get("tie").and_then(|x| x.as_array()) {
+                PosSrc::Tie { t: u(&a[0]) as u8, k: u(&a[1]) as u16 }
             } else {
                 PosSrc::Same
             };
@@ -1019,6 +1042,9 @@ pub fn replay(pid: &str, v: &Value) -> Vec<Failure> {
         let rounds = v["rounds"].as_u64().unwrap_or(2) as usize;
         return crowd_check(v["seed"].as_u64().unwrap_or(1), n, rounds).into_iter().filter(|f| f.0.starts_with(pid)).map(|(sig, msg)| Failure { sig, msg, replay: v.clone() }).collect();
     }
+    if v.get("kind").and_then(|k| k.as_str()) == Some("range_boundary") {
+        return range_boundary_check().into_iter().filter(|f| f.0.starts_with(pid)).map(|(sig, msg)| Failure { sig, msg, replay: v.clone() }).collect();
+    }
     if v.get("kind").and_then(|k| k.as_str()) == Some("long_flight") {
         return long_flight_check(v["n"].as_u64().unwrap_or(9000) as usize).into_iter().filter(|f| f.0.starts_with(pid) || f.0.starts_with("C01")).map(|(sig, msg)| Failure { sig, msg, replay: v.clone() }).collect();
     }
@@ -1032,6 +1058,10 @@ pub fn replay(pid: &str, v: &Value) -> Vec<Failure> {
         return long_count_check(v["seed"].as_u64().unwrap_or(1), v["n"].as_u64().unwrap_or(70_000) as usize).into_iter().filter(|f| f.0.starts_with(pid)).map(|(sig, msg)| Failure { sig, msg, replay: v.clone() }).collect();
     }
     let Some(s) = scenario_from(v) else { return vec![] };
+    if v.get("kind").and_then(|k| k.as_str()) == Some("history_nostd") && pid == "C14" {
+        let mut worker = crate::configs::Worker::spawn();
+        return nostd_invariants(&mut worker, &[s]).into_iter().map(|((sig, msg), _)| Failure { sig, msg, replay: v.clone() }).collect();
+    }
     if v.get("kind").and_then(|k| k.as_str()) == Some("history_nostd") {
         let mut worker = crate::configs::Worker::spawn();
         return nostd_eval(&mut worker, &[s]).into_iter().filter(|f| f.0 .0.starts_with(pid)).map(|((sig, msg), _)| Failure { sig, msg, replay: v.clone() }).collect();
@@ -1055,7 +1085,13 @@ pub fn crowd_check(seed: u64, n: usize, rounds: usize) -> Vec<Fail> {
         let mut v = Vec::with_capacity(n);
         let mut i = 0u32;
         while v.len() < n {
-            let a = (if i % 3 == 0 { 0x300000 + i } else { 0x100000u32.wrapping_add(i.wrapping_mul(0x1003)).wrapping_add(i % 7) }) & 0xff_ffff;
+            // a block of consecutive addresses, a block that differs in the first octet only, one that differs in the middle octet only, and a spread
+            let a = (match i % 6 {
+                0 | 3 => 0x300000 + i,
+                1 if i < 6 * 250 => ((i / 6 + 1) << 16) | 0x1234,
+                2 if i < 6 * 250 => 0x550077 | ((i / 6 + 1) << 8),
+                _ => 0x100000u32.wrapping_add(i.wrapping_mul(0x1003)).wrapping_add(i % 7),
+            }) & 0xff_ffff;
             if seen.insert(a) {
                 v.push(a);
             }
@@ -1188,10 +1224,75 @@ pub fn crowd_positions_check(seed: u64, n: usize) -> Vec<Fail> {
     fails
 }
 
+/// C13 at the exact range limit: "within the configured maximum range" includes a fix whose
+/// distance equals the limit bit for bit.  The limit is set to the distance the tracker itself
+/// reports for a fix (and to the two neighbouring floats), for several receivers.
+pub fn range_boundary_check() -> Vec<Fail> {
+    let mut fails = vec![];
+    for (ri, rx) in RX.iter().enumerate() {
+        for (bi, (bearing, km)) in [(40.0, 37.0), (200.0, 250.0), (310.0, 3.5)].iter().enumerate() {
+            let p = refcpr::destination(*rx, *bearing, *km);
+            if p.0.abs() > 89.0 {
+                continue;
+            }
+            let frames: Vec<Vec<u8>> = (0..2u32)
+                .map(|parity| {
+                    let e = refcpr::encode(p.0, p.1, parity);
+                    let mut me = [0u8; 7];
+                    set(&mut me, 1, 5, 11);
+                    set(&mut me, 9, 12, 0xb50 | 0x10);
+                    set(&mut me, 22, 1, parity as u64);
+                    set(&mut me, 23, 17, e.0 as u64);
+                    set(&mut me, 40, 17, e.1 as u64);
+                    squitter(17, 5, 0xabc001, &me)
+                })
+                .collect();
+            let feed = |range: f64| -> Option<f64> {
+                let mut planes = Airplanes::new();
+                for b in &frames {
+                    if let Ok(f) = Frame::from_bytes(b) {
+                        planes.action(f, *rx, range);
+                    }
+                }
+                planes.get(icao(0xabc001)).and_then(|s| s.coords.position.and(s.coords.kilo_distance))
+            };
+            let Some(d) = feed(20_000.0) else { continue };
+            let up = f64::from_bits(d.to_bits() + 1);
+            let down = f64::from_bits(d.to_bits() - 1);
+            for (limit, must) in [(d, true), (up, true), (down, false)] {
+                let got = feed(limit).is_some();
+                if got != must {
+                    fails.push(("C13/range_boundary".to_string(), format!("receiver {rx:?} (site {ri}, fix {bi}): the fix is {d} km away; with max range {limit} it is {}, expected {}", if got { "published" } else { "not published" }, if must { "published (within the range: distance <= limit)" } else { "cleared (beyond the range)" })));
+                }
+            }
+        }
+    }
+    fails
+}
+
 /// One aircraft on a long flight (a holding circle next to the receiver, 150 m per report, even and
 /// odd reports alternating, `n` reports): nothing panics (C01), the positioned entries of its track
 /// are exactly the positions published before the current one, in order (C14), and an expiry
 /// call that it survives leaves its record untouched (C15).  Histories only reach 60 reports.
+/// the frames of the long flight (holding circle, 150 m per report, even / odd alternating)
+pub fn flight_frames(n: usize) -> Vec<Vec<u8>> {
+    let rx = (52.0, 4.0);
+    let centre = refcpr::destination(rx, 70.0, 60.0);
+    (0..n)
+        .map(|i| {
+            let p = refcpr::destination(centre, (i as f64 * 0.2865) % 360.0, 30.0);
+            let e = refcpr::encode(p.0, p.1, (i % 2) as u32);
+            let mut me = [0u8; 7];
+            set(&mut me, 1, 5, 11);
+            set(&mut me, 9, 12, 0xb50 | 0x10);
+            set(&mut me, 22, 1, (i % 2) as u64);
+            set(&mut me, 23, 17, e.0 as u64);
+            set(&mut me, 40, 17, e.1 as u64);
+            squitter(if i % 5 == 4 { 18 } else { 17 }, 5, 0xabc001, &me)
+        })
+        .collect()
+}
+
 pub fn long_flight_check(n: usize) -> Vec<Fail> {
     let rx = (52.0, 4.0);
     let a = 0xabc001u32;
@@ -1410,6 +1511,60 @@ pub fn nostd_eval(worker: &mut crate::configs::Worker, scenarios: &[Scenario]) -
     out
 }
 
+/// C14's invariants in the alloc-only build: the histories are interpreted by the worker process;
+/// after every step, for every record: a distance is present exactly when a position is, details
+/// only with a position, and the position list has one entry per positioned record.
+pub fn nostd_invariants(worker: &mut crate::configs::Worker, scenarios: &[Scenario]) -> Vec<(Fail, Value)> {
+    let mut reqs = vec![];
+    for s in scenarios {
+        let mut world = World::new(s);
+        let frames: Vec<String> = s.ops.iter().filter_map(|op| build(&mut world, op)).map(|b| bits::hex(&b.bytes)).collect();
+        reqs.push(format!("H {} {} {} {}", world.rx.0, world.rx.1, world.range, frames.join(",")));
+    }
+    let answers = worker.ask(&reqs);
+    let mut out = vec![];
+    for (s, ans) in scenarios.iter().zip(answers.iter()) {
+        let mut fail: Option<Fail> = None;
+        let mut step = String::new();
+        let mut positioned = 0usize;
+        let mut last_key = String::new();
+        let mut last_pos = false;
+        for l in ans.lines() {
+            if let Some(r) = l.strip_prefix('#') {
+                step = r.to_string();
+                positioned = 0;
+            } else if l.len() > 10 && l.as_bytes()[6] == b':' && l[7..].starts_with(" n=") {
+                let pos = l.contains(" pos=Some(");
+                let dist = l.contains(" dist=Some(");
+                last_key = l[..6].to_string();
+                last_pos = pos;
+                if pos {
+                    positioned += 1;
+                }
+                if pos != dist {
+                    fail = Some(("C14/no_std/distance_iff_position".into(), format!("alloc-only build, step {step}: {last_key} has position {} and distance {}", if pos { "Some" } else { "None" }, if dist { "Some" } else { "None" })));
+                    break;
+                }
+            } else if l.starts_with("  details pos=") && !last_pos {
+                fail = Some(("C14/no_std/details_without_position".into(), format!("alloc-only build, step {step}: {last_key} has details but no position")));
+                break;
+            } else if let Some(r) = l.strip_prefix("all_position=") {
+                let listed = r.matches("ICAO(").count();
+                if listed != positioned {
+                    fail = Some(("C14/no_std/all_position".into(), format!("alloc-only build, step {step}: the position list has {listed} entries, {positioned} records have a position")));
+                    break;
+                }
+            }
+        }
+        if let Some(f) = fail {
+            let mut v = scenario_json(s);
+            v["kind"] = json!("history_nostd");
+            out.push((f, v));
+        }
+    }
+    out
+}
+
 pub fn run(ctx: &Ctx, pid: &'static str) -> ! {
     let with_time = pid == "C15" || pid == "C12";
     let cases = ctx.tier.pick(96_000u32, 4_000_000);
@@ -1520,6 +1675,16 @@ pub fn run(ctx: &Ctx, pid: &'static str) -> ! {
                 }
             }
         }
+        if pid == "C13" {
+            st.evaluations += 72;
+            st.nontrivial_enum += 24;
+            st.class("fix exactly at the range limit");
+            for (sig, msg) in range_boundary_check() {
+                if !st.failures.contains_key(&sig) {
+                    st.fail(Failure { sig, msg, replay: json!({"kind": "range_boundary"}) });
+                }
+            }
+        }
         for nn in [900usize, if ctx.tier == Tier::Quick { 2500 } else { 40_000 }] {
             st.evaluations += nn as u64;
             st.nontrivial_enum += 1;
@@ -1532,6 +1697,32 @@ pub fn run(ctx: &Ctx, pid: &'static str) -> ! {
         st.nontrivial_enum += n;
         st.class_n("flight across a zone transition", n);
         st.exhaustive.push("flights across each of the 58 longitude-zone transitions in both hemispheres (5 offsets x 2 directions)".into());
+    }
+    if pid == "C14" {
+        // the invariants once more in the alloc-only build; the std run of the same histories
+        // tells how many of them publish a position at all (a vacuity guard for this pass)
+        use proptest::strategy::ValueTree;
+        let n = ctx.tier.pick(1200usize, 30_000);
+        let mut runner = TestRunner::new(Config { failure_persistence: None, rng_seed: RngSeed::Fixed(runner_seed(ctx.seed, 0x7c14, 0)), ..Config::default() });
+        let strat = scenario_s(40, false);
+        let mut worker = crate::configs::Worker::spawn();
+        let mut done = 0;
+        let mut reported = false;
+        let mut published = 0u64;
+        while done < n {
+            let chunk: Vec<Scenario> = (0..100.min(n - done)).filter_map(|_| strat.new_tree(&mut runner).ok().map(|t| t.current())).collect();
+            done += 100.min(n - done);
+            st.evaluations += chunk.len() as u64;
+            published += chunk.iter().filter(|s| run_history(s, None, false).publishes > 0).count() as u64;
+            for ((sig, msg), replay) in nostd_invariants(&mut worker, &chunk) {
+                if !reported {
+                    st.fail(Failure { sig, msg, replay });
+                    reported = true;
+                }
+            }
+        }
+        st.class_n("history in the alloc-only build", n as u64);
+        st.class_n("history in the alloc-only build that publishes a position (std run)", published);
     }
     if pid == "C14" || pid == "C15" {
         let n = ctx.tier.pick(9_000usize, 40_000);
